@@ -6,7 +6,10 @@ for a relative include `file` of a file whose canonical directory is `dir`
 * every returned path lies in `dir`, literally (`inDir`): it is `dir` itself or `dir`, a separator, more;
 * if `file` is a plain relative name (no metacharacter `?` `*` `[`, every component a proper name) and
   `dir/file` is a regular file reached through real, searchable directories only (`plainFile`: a lookup by
-  name in the listing, no links, no `.`/`..`), then `dir/file` is among the returned paths.
+  name in the listing, no links, no `.`/`..`), then `dir/file` is among the returned paths;
+* if `file` is plain directory names followed by `*` and a literal suffix (the shape `conf.d/*.toml`), and that
+  directory is reached through real, searchable directories and can itself be listed and searched, then every
+  regular file in it whose name ends with the suffix is among the returned paths (`starFiles`).
 An absolute include is not judged here.
 -/
 import AcmedVerif.Model.Glob
@@ -61,8 +64,46 @@ def namesFile (L : Listing) (dir file : Str) : Bool :=
 
 def allInside (dir : Str) (returned : List Str) : Bool := returned.all (inDir dir)
 
+/-- The directory the names `cs` lead to from `loc`, through real searchable directories. -/
+def plainDir (L : Listing) : List Str → List Str → Option (List Str)
+  | loc, [] => some loc
+  | loc, c :: cs =>
+    match L.lookup loc with
+    | some info =>
+      if info.canSearch && info.entries.lookup c == some Kind.dir then plainDir L (loc ++ [c]) cs else none
+    | none => none
+
+def endsWith (name suffix : Str) : Bool := suffix.reverse.isPrefixOf name.reverse
+
+/-- `file` = plain directory names, then `*` and a literal suffix: (the names, the suffix). -/
+def starShape (file : Str) : Option (List Str × Str) :=
+  let ps := pieces file
+  match ps.getLast? with
+  | some ('*' :: suffix) =>
+    if !suffix.any isMeta && ps.dropLast.all (fun n => validName n && !n.any isMeta) then some (ps.dropLast, suffix) else none
+  | _ => none
+
+/-- The paths a `names/*suffix` include must return: the regular files with that suffix of a directory that is
+really there and can be listed. -/
+def starFiles (L : Listing) (dir file : Str) : List Str :=
+  if !isRelative file then [] else
+  match starShape file with
+  | none => []
+  | some (names, suffix) =>
+    match plainDir L (dirComps dir) names with
+    | none => []
+    | some loc =>
+      match L.lookup loc with
+      | some info =>
+        if info.canList && info.canSearch then
+          (info.entries.filter fun e => e.2 == Kind.file && endsWith e.1 suffix).map fun e =>
+            withSep dir ++ (names.flatMap fun n => n ++ ['/']) ++ e.1
+        else []
+      | none => []
+
 def holds (L : Listing) (dir file : Str) (returned : List Str) : Bool :=
   !isRelative file ||
-  (allInside dir returned && (!namesFile L dir file || returned.contains (named dir file)))
+  (allInside dir returned && (!namesFile L dir file || returned.contains (named dir file)) &&
+   (starFiles L dir file).all returned.contains)
 
 end AcmedVerif.Spec.C14Glob
